@@ -1,3 +1,4 @@
+import NmVerif.Props.C04Gen
 import NmVerif.Lemmas.Tile
 import NmVerif.Lemmas.Pad
 import NmVerif.Lemmas.Take
@@ -9,6 +10,7 @@ import NmVerif.Index.Expand
 import NmVerif.Lemmas.Diagonal
 import NmVerif.Lemmas.SlidingWindow
 import NmVerif.Lemmas.Split
+import NmVerif.Lemmas.Expand
 import NmVerif.Index.Stack
 /-
   C04 — selecting / replicating / joining / generating views equal their reference result.
@@ -635,8 +637,9 @@ example : (compressView [2, 4] [0, 1, 0, 1] (some 1)).map (fun v => (v.dst, v.ma
 example : (compressView [2, 4] [0, 1, 0, 1] (some (-1))).map (fun v => (v.dst, v.map [1, 1])) = some ([2, 2], some [1, 3]) := by decide
 
 /-! ### expand (spacing insertion with a fill value: documented definition — extent `n + (n-1)·spacing` on the axis,
-    source entry `q` at position `q·(spacing+1)`, fill elsewhere).  Proved for one axis (any accepted sign);
-    several axes are under correspondence only (listed in PARTIAL). -/
+    source entry `q` at position `q·(spacing+1)`, fill elsewhere).  `expand_*`: one axis (any accepted sign);
+    `expandAxes_*`: any list of accepted axes (any sign, repeats allowed) with one spacing per entry (a scalar spacing is
+    the constant list). -/
 
 theorem expand_shape (s : Shape) (axis : Int) (sp k e : Nat) (hk : normalizeAxis1 axis s.length = some k)
     (he : s[k]? = some e) :
@@ -688,6 +691,80 @@ theorem expand_inBounds (s : Shape) (axis : Int) (sp k : Nat) (hk : normalizeAxi
 
 example : (expandView [2, 3] [-1] [2]).map (fun v => (v.dst, v.map [1, 3], v.map [1, 4])) =
     some ([2, 7], some [1, 1], none) := by decide
+
+/-- several axes: the factor of an axis that is listed once is its `spacing + 1`, of an axis that is not listed 1
+    (so the statements below are the documented per-axis definition; a repeated axis multiplies its factors, which is
+    what inserting the spacings one after the other gives) -/
+theorem expandAxes_factor (ks sps : List Nat) (hn : ks.Nodup) :
+    (∀ (i k sp : Nat), ks[i]? = some k → sps[i]? = some sp → expandFactor ks sps k = sp + 1) ∧
+    (∀ j, j ∉ ks → expandFactor ks sps j = 1) :=
+  ⟨fun i k sp hk hs => expandFactor_nodup ks sps hn i k sp hk hs, fun j hj => expandFactor_not_mem ks sps j hj⟩
+
+/-- accepted axes (each in `[-dim, dim)`), one spacing per axis: the view exists, keeps the rank, and axis `j` has extent
+    `n + (n-1)·(factor j - 1)` — `n + (n-1)·spacing` on a listed axis, `n` elsewhere -/
+theorem expandAxes_shape (s : Shape) (axes : List Int) (sps ks : List Nat) (hk : AxesNorm s.length axes ks)
+    (hl : sps.length = axes.length) :
+    ∃ v, expandView s axes sps = some v ∧ v.src = s ∧ v.dst.length = s.length ∧
+      ∀ j (hj : j < s.length), v.dst[j]? = some (s[j] + (s[j] - 1) * (expandFactor ks sps j - 1)) := by
+  have hspec := shapeExpand_spec ks sps (by rw [hk.length_eq, hl]) s hk.lt
+  refine ⟨⟨s, shapeExpand s ks sps, fun d => indexExpand d ks sps⟩, ?_, rfl, hspec.1, hspec.2⟩
+  simp [expandView, normalizeAxes_of_axesNorm hk]
+
+/-- the fill value wherever some coordinate is not a multiple of its factor; otherwise the source element whose
+    coordinates are the destination coordinates divided by their factors -/
+theorem expandAxes_elem (s : Shape) (axes : List Int) (sps ks : List Nat) (hk : AxesNorm s.length axes ks)
+    (hl : sps.length = axes.length) (v : IxView) (hv : expandView s axes sps = some v) (d : Idx)
+    (hd : d.length = s.length) :
+    ((∃ j x, d[j]? = some x ∧ x % expandFactor ks sps j ≠ 0) → v.map d = none) ∧
+    ((∀ j x, d[j]? = some x → x % expandFactor ks sps j = 0) →
+      ∃ q, v.map d = some q ∧ q.length = d.length ∧ ∀ j x, d[j]? = some x → q[j]? = some (x / expandFactor ks sps j)) := by
+  simp only [expandView, normalizeAxes_of_axesNorm hk, Option.map_some, Option.some.injEq] at hv
+  subst hv
+  exact indexExpand_spec ks sps (by rw [hk.length_eq, hl]) d (by rw [hd]; exact hk.lt)
+
+theorem expandAxes_inBounds (s : Shape) (axes : List Int) (sps ks : List Nat) (hk : AxesNorm s.length axes ks)
+    (hl : sps.length = axes.length) (v : IxView) (hv : expandView s axes sps = some v) : v.InBounds := by
+  obtain ⟨w, hw, h1, h2, h3⟩ := expandAxes_shape s axes sps ks hk hl
+  rw [hv] at hw; simp only [Option.some.injEq] at hw; subst hw
+  intro d hd i hi
+  have hdl : d.length = s.length := by rw [hd.length_eq, h2]
+  obtain ⟨hnone, hsome⟩ := expandAxes_elem s axes sps ks hk hl v hv d hdl
+  by_cases hall : ∀ j x, d[j]? = some x → x % expandFactor ks sps j = 0
+  · obtain ⟨q, hq, hql, hqs⟩ := hsome hall
+    rw [hq] at hi
+    simp only [Option.some.injEq] at hi
+    subst hi
+    rw [h1, inShape_iff_forall]
+    refine ⟨by omega, ?_⟩
+    intro j hj1 hj2
+    have hjd : j < d.length := by omega
+    have hqj := hqs j d[j] (by simp [hjd])
+    have e : q[j] = d[j] / expandFactor ks sps j := by simpa [hj1] using hqj
+    rw [e]
+    have hdj := ((inShape_iff_forall _ _).1 hd).2 j hjd (by omega)
+    have hext : v.dst[j] = s[j] + (s[j] - 1) * (expandFactor ks sps j - 1) := by
+      have := h3 j hj2
+      simpa [show j < v.dst.length by omega] using this
+    rw [hext] at hdj
+    exact expand_quot_lt s[j] _ d[j] (expandFactor_pos ks sps j) hdj (hall j d[j] (by simp [hjd]))
+  · have : ∃ j x, d[j]? = some x ∧ x % expandFactor ks sps j ≠ 0 := by
+      apply Classical.byContradiction
+      intro hcon
+      apply hall
+      intro j x hjx
+      apply Classical.byContradiction
+      intro hne
+      exact hcon ⟨j, x, hjx, hne⟩
+    rw [hnone this] at hi
+    simp at hi
+
+example : AxesNorm 2 [-1, 0] [1, 0] ∧ expandFactor [1, 0] [2, 1] 1 = 3 ∧ expandFactor [1, 0] [2, 1] 0 = 2 :=
+  ⟨.cons (by decide) (.cons (by decide) .nil), by decide, by decide⟩
+example : (expandView [2, 3] [-1, 0] [2, 1]).map (fun v => (v.dst, v.map [2, 3], v.map [1, 3], v.map [2, 4])) =
+    some ([3, 7], some [1, 1], none, none) := by decide
+/-- a repeated axis multiplies its factors -/
+example : expandFactor [0, 0] [1, 2] 0 = 6 ∧
+    (expandView [3] [0, -1] [1, 2]).map (fun v => (v.dst, v.map [6], v.map [3])) = some ([13], some [1], none) := by decide
 
 /-! ### tril / triu (NumPy: `out[…, i, j] = m[…, i, j]` if `j ≤ i + k` (tril) / `j ≥ i + k` (triu), else 0;
     a rank-1 `m` is used as every row of an `n × n` result) -/
